@@ -71,14 +71,13 @@ def group_fmmus(prog, rep, tag):
     # capacity check
     okc = False
     for cd in q.conds(b):
-        if cd.kind == "cmp" and cd.op in ("Gt", "Le"):
-            l, r = pr.of_operand(cd.lhs), pr.of_operand(cd.rhs)
-            if has_root(l, "field", "SubDeviceGroup", "pdi_len") and any(x[0] == "const" and "MAX_PDI" in str(x) for x in r):
-                le_t = cd.false_target() if cd.op == "Gt" else cd.true_target()
-                gt_t = cd.true_target() if cd.op == "Gt" else cd.false_target()
-                oks = [x for x in q.aggregates(b, "Result", "Ok")]
-                errs = [x for x in q.aggregates(b, "Error", "PdiTooLong")]
-                okc = bool(oks) and bool(errs) and all(bi in q.edge_dominated(b, cd.bb, le_t) for bi, _, _ in oks) and all(bi in q.edge_dominated(b, cd.bb, gt_t) for bi, _, _ in errs)
+        e = q.rel_edges(cd, lambda x: has_root(x, "field", "SubDeviceGroup", "pdi_len"), lambda x: any(y[0] == "const" and "MAX_PDI" in str(y) for y in x), pr)
+        le_t = e.get("Le")
+        gt_t = e.get("Gt")
+        if le_t is not None and gt_t is not None:
+            oks = [x for x in q.aggregates(b, "Result", "Ok")]
+            errs = [x for x in q.aggregates(b, "Error", "PdiTooLong")]
+            okc = bool(oks) and bool(errs) and all(bi in q.edge_dominated(b, cd.bb, le_t) for bi, _, _ in oks) and all(bi in q.edge_dominated(b, cd.bb, gt_t) for bi, _, _ in errs)
     rep.ob(P, "capacity-check" + tag, okc, "Ok(()) is returned only where pdi_len <= MAX_PDI; otherwise Err(PdiTooLong)", loc=b.span)
     # a group that does not fit must not leave mappings behind: its FMMUs would reach past its own
     # [start, start + MAX_PDI) range into the next group's, and that group's outputs would also land here
@@ -165,11 +164,16 @@ def device_fmmus(prog, rep, tag):
     # the stored io ranges are relative to the group start
     cf = prog.async_body("configuration::configure_fmmus")
     segs = q.aggregates(cf, "PdiSegment")
-    ok = len(segs) == 2
+    ok = len(segs) >= 1
     for bi, si, s in segs:
         r = Prov(cf).of_operand(q.agg_field(s, "bytes"))
         ok = ok and has_root(r, "binop", "Sub") and (has_root(r, "await", "configuration::configure_pdos_eeprom") or has_root(r, "await", "configuration::configure_pdos_coe"))
-    wr = {a[3]["p"][-1]["n"] if isinstance(a[3]["p"][-1], dict) else None for a in q.field_accesses(cf, "IoRanges", "input") + q.field_accesses(cf, "IoRanges", "output") if a[2] == "write"}
+    wacc = [a for a in q.field_accesses(cf, "IoRanges", "input") + q.field_accesses(cf, "IoRanges", "output") if a[2] == "write"]
+    wr = {a[3]["p"][-1]["n"] if isinstance(a[3]["p"][-1], dict) else None for a in wacc}
+    # what is stored is the rebased segment (one literal shared by both arms, or one per arm)
+    for a in wacc:
+        st_ = cf.stmts(a[0])[a[1]]
+        ok = ok and st_["k"] == "assign" and any(x[0] == "agg" and x[1] == "PdiSegment" for x in Prov(cf)._of_rvalue(st_["rv"]))
     rep.ob(P, "configure_fmmus:io-ranges" + tag, ok and wr == {"input", "output"}, "io.input / io.output are the configured segment minus the group's start address", loc=cf.span, how="dataflow")
 
 
